@@ -8,8 +8,8 @@ from pktgen import udp_frame, fragments
 class Prop(PropBase):
     pid = 'C13'
     kernels = []
-    vo_targets = []
-    prop_files = []
+    vo_targets = ['Props/Properties_C13.vo', 'Proofs/InputSafe.vo', 'Proofs/Layout.vo']
+    prop_files = ['Props/Properties_C13.v']
     rule = ('ASan+UBSan build, real receive/decode threads. pcap files: records truncated by the snap length (caplen < len), frames shorter than the headers (0..60 bytes), '
             'longer than an MTU (3000), ARP/IPv6/IP-options/fragments, inconsistent IP total length and header length; user/tail layers 0/4/64, VLAN; sockets (loopback UDP): '
             'datagram sizes 0,1,..,around user+tail, around 1546 and 65507; raw API sizes likewise; jumbo pcap: bogus fragment trains (tot_len < ihl*4, fill level beyond 64 KiB, '
